@@ -10,8 +10,10 @@ package nsqd
 
 import (
 	"fmt"
+	"io"
 	"net"
 	"os"
+	"runtime"
 	"strings"
 	"sync/atomic"
 	"testing"
@@ -107,6 +109,8 @@ func TestVerifE5Replay(t *testing.T) {
 		vfE5ReplayEphTopic(t, name)
 	case "ephemeral_topic_concurrent_leave":
 		vfE5ReplayEphLeave(t, name)
+	case "ephemeral_sub_after_last_leave":
+		vfE5ReplayEphSubAfterLeave(t, name)
 	case "delete_races_getchannel":
 		vfE5ReplayDeleteGetChannel(t, name)
 	case "fin_races_empty_count", "req_races_empty_count":
@@ -1071,6 +1075,132 @@ func vfE5ReplayEphLeave(t *testing.T, name string) {
 		}
 	}
 	fmt.Printf("E5REPLAY %s rounds=%d topics_left_behind=%d first_round=%d wrong=%v\n", name, rounds, stuck, first, stuck > 0)
+	os.Exit(0)
+}
+
+// vfE5OneFrame reads one non-heartbeat frame ("r:OK", "e:E_…", "m"); closed = the peer closed / nothing within d.
+func vfE5OneFrame(conn net.Conn, d time.Duration) (frame string, closed bool) {
+	conn.SetReadDeadline(time.Now().Add(d))
+	for {
+		hdr := make([]byte, 8)
+		if _, err := io.ReadFull(conn, hdr); err != nil {
+			ne, isNet := err.(net.Error)
+			return "", !(isNet && ne.Timeout())
+		}
+		size := int(hdr[0])<<24 | int(hdr[1])<<16 | int(hdr[2])<<8 | int(hdr[3])
+		body := make([]byte, size-4)
+		if _, err := io.ReadFull(conn, body); err != nil {
+			return "", true
+		}
+		switch hdr[7] {
+		case 0:
+			if string(body) == "_heartbeat_" {
+				conn.Write([]byte("NOP\n"))
+				continue
+			}
+			return "r:" + string(body), false
+		case 1:
+			return "e:" + strings.ReplaceAll(string(body), " ", "_"), false
+		default:
+			return "m", false
+		}
+	}
+}
+
+// Audit B9 (no hook exists between RemoveClient and the asynchronous `go c.deleter.Do(…)` of an ephemeral channel):
+// unsteered rounds.  Consumer A (the only one) leaves the ephemeral channel while a real TCP consumer B sends SUB for
+// the same name.  Whatever the interleaving — B attached before A left (the channel stays), B attached to the old
+// object between A's RemoveClient and the deletion's exit (the window: B is answered OK and then disconnected by the
+// deletion), B finds the exiting object (retry / E_SUB_FAILED), B creates a fresh channel after the unlink — the
+// property is: **a consumer that was answered OK is never left on a deleted channel**: afterwards B is either
+// disconnected, or attached to a channel object that is linked in its topic and not exiting.
+// Model: Model/ChanDelete.lean (`delBegin` enabled at any later time), theorem Props.C08ChanDelete.no_chan_zombie_fixed.
+func vfE5ReplayEphSubAfterLeave(t *testing.T, name string) {
+	opts := vfE5Opts(t.TempDir())
+	opts.MemQueueSize = 4
+	opts.ClientTimeout = 60 * time.Second
+	n, err := New(opts)
+	if err != nil {
+		t.Fatal(err)
+	}
+	n.LoadMetadata()
+	go n.Main()
+	rounds := vfEnvInt("VERIF_ROUNDS", 300)
+	keptOld, fresh, window, refused, zombie, firstZombie := 0, 0, 0, 0, 0, -1
+	detail := ""
+	for i := 0; i < rounds; i++ {
+		tn := fmt.Sprintf("sl%d", i)
+		topic := n.GetTopic(tn)
+		old := topic.GetChannel("e#ephemeral")
+		old.AddClient(1, newClientV2(1, &vfE5Conn{}, n))
+		conn := vfE5Dial(t, n)
+		start := make(chan struct{})
+		left := make(chan struct{})
+		go func() {
+			<-start
+			for k := 0; k < (i%8)*400; k++ { // a few microseconds, varied, so that the SUB lands around the removal
+				runtime.Gosched()
+			}
+			old.RemoveClient(1)
+			close(left)
+		}()
+		close(start)
+		conn.Write([]byte("SUB " + tn + " e#ephemeral\n"))
+		fr, closed := vfE5OneFrame(conn, 2*time.Second)
+		<-left
+		// let the asynchronous deletion (if one was started) run to its unlink
+		for d := time.Now().Add(time.Second); time.Now().Before(d); {
+			topic.RLock()
+			cur := topic.channelMap["e#ephemeral"]
+			topic.RUnlock()
+			if !old.Exiting() || cur != old {
+				break
+			}
+			time.Sleep(100 * time.Microsecond)
+		}
+		if old.Exiting() {
+			// Channel.exit closes its consumers before the unlink; give the close a moment to arrive
+			time.Sleep(2 * time.Millisecond)
+		}
+		topic.RLock()
+		cur := topic.channelMap["e#ephemeral"]
+		topic.RUnlock()
+		attached := func(c *Channel) bool {
+			if c == nil {
+				return false
+			}
+			c.RLock()
+			defer c.RUnlock()
+			return len(c.clients) > 0
+		}
+		switch {
+		case fr != "r:OK" || closed:
+			refused++
+		default:
+			_, gone := vfE5OneFrame(conn, 20*time.Millisecond)
+			onOld, onCur := attached(old), cur != old && attached(cur)
+			switch {
+			case gone:
+				if old.Exiting() && cur != old {
+					window++ // answered OK on the old object, then disconnected by its deletion
+				}
+			case onCur && cur != nil && !cur.Exiting():
+				fresh++
+			case onOld && cur == old && !old.Exiting():
+				keptOld++
+			default:
+				zombie++
+				if firstZombie < 0 {
+					firstZombie = i
+					detail = fmt.Sprintf("old_exiting=%v old_linked=%v on_old=%v on_cur=%v", old.Exiting(), cur == old, onOld, onCur)
+				}
+			}
+		}
+		conn.Close()
+		n.DeleteExistingTopic(tn)
+	}
+	fmt.Printf("E5REPLAY %s rounds=%d attached_before_leave=%d fresh_channel=%d window_hit_then_closed=%d refused=%d zombie=%d first_round=%d detail=%s wrong=%v\n",
+		name, rounds, keptOld, fresh, window, refused, zombie, firstZombie, strings.ReplaceAll(detail, " ", ","), zombie > 0)
 	os.Exit(0)
 }
 
